@@ -214,6 +214,22 @@ fn gen_for_raw(prop: &str, seed: u64) -> Scenario {
     #[cfg(feature = "sim")]
     if prop == "C15" || (matches!(prop, "C01" | "C02" | "C03" | "C04" | "C05" | "C11" | "C12" | "C13") && rng.chance(1, 7)) {
         crate::afamily::asyncify(&mut sc, &mut rng);
+        if prop == "C15" {
+            let inf = infos(&sc.regs);
+            let ord: Vec<usize> = inf.iter().filter(|i| i.parent.is_none() && i.kind == Kind::Sys).map(|i| i.sid).collect();
+            let ndisp = sc.aops.iter().filter(|o| **o == AOp::Dispatch).count();
+            let nsetup = sc.aops.iter().filter(|o| **o == AOp::Setup).count();
+            if !ord.is_empty() && rng.chance(1, 10) {
+                // a system panics inside a background job (a pool with a panic handler survives
+                // that): the job dies without handing the state back, and no accessor may
+                // pretend afterwards that the dispatch has completed
+                let kind = *rng.pick(&[FaultKind::PanicBefore, FaultKind::PanicMid, FaultKind::PanicAfter]);
+                sc.faults.push(Fault { sid: *rng.pick(&ord), call: rng.below(ndisp as u64) as usize, kind, arg: 0 });
+            } else if !ord.is_empty() && nsetup > 0 && rng.chance(1, 8) {
+                // a system's setup panics during a Setup operation; the caller catches it
+                sc.faults.push(Fault { sid: *rng.pick(&ord), call: rng.below(nsetup as u64) as usize, kind: FaultKind::SetupPanic, arg: 0 });
+            }
+        }
         return sc;
     }
     if prop == "C12" && rng.chance(1, 5) {
@@ -936,6 +952,7 @@ fn note_fault(st: &mut Stats, k: FaultKind, fired: bool) {
         FaultKind::Rendezvous => "rendezvous",
         FaultKind::ExtraSteps => "stall_extra_steps",
         FaultKind::Undeclared => "undeclared_fetch",
+        FaultKind::SetupPanic => "panic_in_system_setup",
     };
     if fired {
         Stats::bump(&mut st.faults, name, 1);
@@ -1123,6 +1140,13 @@ fn explore_async(prop: &str, seed: u64, sc: &Scenario, thorough: bool, st: &mut 
         let o = eval_async_on(bref, &p.sc, &p.strat, p.rs, None);
         crate::driver::chain(o.digest);
         let rebuild = bref.broken;
+        for f in p.sc.faults.iter().filter(|f| f.kind != FaultKind::Rendezvous) {
+            // (armed; a job that died shows as a rebuilt dispatcher, a setup panic is caught)
+            note_fault(st, f.kind, true);
+            if rebuild {
+                Stats::bump(&mut st.faults, "async_job_died_state_not_handed_back", 1);
+            }
+        }
         st.runs += 1;
         st.steps += o.steps;
         st.switches += o.switches;
